@@ -62,7 +62,28 @@ var AllTypes []uint16
 var PlainTypes = []uint16{wm.TA, wm.TAAAA, wm.TNS, wm.TCNAME, wm.TSOA, wm.TPTR, wm.TMX, wm.TSRV, wm.TTXT, wm.TDNAME,
 	wm.TMINFO, wm.TRP, wm.TAFSDB, wm.TKX, wm.TNAPTR, wm.THINFO}
 
+// FieldPlainTypes: every type whose RDATA consists of integers, addresses, names and
+// character-strings only (by the layout table), i.e. the whole exactness domain of C08.
+var FieldPlainTypes []uint16
+
 func init() {
+	for t, l := range wm.Layout {
+		ok := t != wm.TOPT && t != wm.TPrivate && len(l) > 0
+		for _, sp := range l {
+			switch sp.K {
+			case wm.U8, wm.U16, wm.U32, wm.U48, wm.U64, wm.NameC, wm.NameU, wm.Str, wm.Strs, wm.IPv4, wm.IPv6:
+			default:
+				ok = false
+			}
+			if sp.Hint == "gwtype" || sp.Hint == "amtgwtype" {
+				ok = false
+			}
+		}
+		if ok {
+			FieldPlainTypes = append(FieldPlainTypes, t)
+		}
+	}
+	sort.Slice(FieldPlainTypes, func(i, j int) bool { return FieldPlainTypes[i] < FieldPlainTypes[j] })
 	for t := range wm.Layout {
 		if t != wm.TOPT {
 			AllTypes = append(AllTypes, t)
